@@ -896,7 +896,11 @@ func (r *runner) run() string {
 			}
 			r.e.fetchHook = nil
 			if hooked {
-				<-done
+				select {
+				case <-done:
+				case <-time.After(30 * time.Second):
+					return "timeout"
+				}
 			} else {
 				r.issue(second) // the submission was rejected before any chain lookup
 			}
@@ -1194,10 +1198,29 @@ func execRecord(line string) (string, string) {
 	return strings.Join(tok, " "), out
 }
 
+// watchdog runs f; a (mutated) tree that deadlocks or spins must end as an answer, not as a hung check.
+func watchdog(f func() string) string {
+	ch := make(chan string, 1)
+	go func() {
+		defer func() {
+			if recover() != nil {
+				ch <- "panic"
+			}
+		}()
+		ch <- f()
+	}()
+	select {
+	case out := <-ch:
+		return out
+	case <-time.After(120 * time.Second):
+		return "timeout"
+	}
+}
+
 // Exec runs the REAL code on the line.
 func (P) Exec(line string) string {
 	if v, ok := memo.LoadAndDelete(line); ok {
 		return v.(string)
 	}
-	return execLine(line)
+	return watchdog(func() string { return execLine(line) })
 }
